@@ -25,6 +25,7 @@ type Case struct {
 	Dirty      byte     `json:"dirty"`
 	ReadBuf    int      `json:"read_buf,omitempty"` // size of the caller's buffer for the hostile reads (0: 1700 bytes); a short one truncates like a datagram read
 	Fast       bool     `json:"fast,omitempty"` // fuzzing: skip the pauses that let ticker goroutines run
+	Order      uint64   `json:"order,omitempty"` // "chain": 0 keeps the catalog order, otherwise the seed of a permutation of the members
 }
 
 const (
@@ -51,15 +52,30 @@ type rig struct {
 	seqIn      uint16
 }
 
-func newRig(member string) (*rig, error) {
+func newRig(member string, order uint64) (*rig, error) {
 	r := &rig{rtcpSink: &kit.RTCPSink{}, rtpSink: &kit.RTPSink{}, rtpSrc: &kit.ByteSource{}, rtcpSrc: &kit.ByteSource{}}
 	names := []string{member}
 	if member == "chain" {
-		names = kit.AllNames
+		names = append([]string(nil), kit.AllNames...)
+		if order != 0 { // which member sees a packet first (and what it leaves in the shared attributes) depends on the order
+			x := order | 1
+			for i := len(names) - 1; i > 0; i-- {
+				x ^= x << 13
+				x ^= x >> 7
+				x ^= x << 17
+				j := int(x % uint64(i+1)) //nolint:gosec
+				names[i], names[j] = names[j], names[i]
+			}
+		}
 	}
 	for _, n := range names {
 		if member == "chain" && (n == "pacing" || n == "cc-leaky-bucket" || n == "jitterbuffer") {
 			continue // the chain keeps delivery synchronous; these three are exercised on their own
+		}
+		if member == "chain" && order != 0 && n == "cc-noop-pacer" {
+			// inside an FEC or RTX member the estimator's pacer answers "unknown ssrc" for repair packets and the error is joined into the
+			// application's write (DESIGN 8.2, observation a): the cc member keeps its catalog position (order 0) and its own cases
+			continue
 		}
 		m := kit.NewMember(n, interval)
 		ic, err := m.Factory.NewInterceptor("c02")
@@ -98,7 +114,7 @@ func (r *rig) goodOutgoing() (rtp.Header, []byte) {
 
 // verdict of executing a case: "" or a description of the violation.
 func execute(c *Case) string { //nolint:cyclop
-	r, err := newRig(c.Member)
+	r, err := newRig(c.Member, c.Order)
 	if err != nil {
 		return "harness: " + err.Error()
 	}
